@@ -161,6 +161,12 @@ impl Tz {
         Tz
     }
 }
+/// take a zero-sized value out of the accounting without running its destructor (the harness's own
+/// disposal of a result, which is not a drop by the crate)
+pub fn zforget(t: Tz) {
+    ZLIVE.with(|z| z.set(z.get() - 1));
+    std::mem::forget(t);
+}
 impl Default for Tz {
     fn default() -> Tz {
         Tz::new()
